@@ -1,1 +1,103 @@
-// harness bodies compiled inside quinn-proto/src/packet.rs (feature __verif-hooks)
+// Harness bodies for quinn-proto/src/packet.rs.
+
+const V62: u64 = 1 << 62;
+
+/// C10 / C01.b: a truncated packet number decodes to the number that was sent, for every sender
+/// state (largest_acked <= n, 2*(n - largest_acked) < 2^32) and every receiver state inside the
+/// RFC 9000 App. A window of the chosen encoding (expected - hwin < n <= expected + hwin), going
+/// through the wire path new -> encode -> decode_len/decode -> expand.
+pub fn pn_roundtrip(n: u64, largest_acked: u64, expected: u64) -> u32 {
+    if n >= V62 || expected > V62 || largest_acked > n {
+        return 0;
+    }
+    let range = (n - largest_acked) * 2;
+    if range >= 1 << 32 {
+        return 0;
+    }
+    let pn = PacketNumber::new(n, largest_acked);
+    // minimal length that covers twice the unacknowledged range
+    let want_len = if range < 1 << 8 { 1 } else if range < 1 << 16 { 2 } else if range < 1 << 24 { 3 } else { 4 };
+    assert!(pn.len() == want_len);
+    let hwin: u64 = 1 << (8 * want_len - 1);
+    // receiver state inside the window
+    if !(n <= expected + hwin && n + hwin > expected) {
+        return 0;
+    }
+    let mut buf = [0u8; 4];
+    let mut w = &mut buf[..];
+    pn.encode(&mut w);
+    let written = 4 - w.len();
+    assert!(written == pn.len());
+    // first header byte carries the length in its two low bits
+    let tag = pn.tag();
+    assert!(PacketNumber::decode_len(tag) == written);
+    assert!(PacketNumber::decode_len(tag | 0xfc) == written);
+    // the wire bytes are the big-endian low bytes of n
+    let mut i = 0;
+    while i < written {
+        assert!(buf[i] == (n >> (8 * (written - 1 - i))) as u8);
+        i += 1;
+    }
+    let mut r = &buf[..written];
+    let Ok(dec) = PacketNumber::decode(written, &mut r) else {
+        panic!("decode failed on a full-length buffer");
+    };
+    assert!(r.is_empty());
+    assert!(dec.len() == written);
+    let got = dec.expand(expected);
+    assert!(got == n);
+    1 | (1 << want_len) | (if n < expected { 32 } else { 0 }) | (if n > expected { 64 } else { 0 })
+}
+
+/// C03/C10: `PacketNumber::decode` + `expand` are total on arbitrary wire bytes and arbitrary
+/// receiver state (expected <= 2^62): no overflow, and the result is congruent to the wire value
+/// modulo 2^(8 len).
+pub fn pn_decode_expand_total(bytes: [u8; 4], tag: u8, expected: u64) -> u32 {
+    if expected > V62 {
+        return 0;
+    }
+    let len = PacketNumber::decode_len(tag);
+    assert!(len >= 1 && len <= 4);
+    let mut r = &bytes[..len];
+    let Ok(pn) = PacketNumber::decode(len, &mut r) else {
+        panic!("decode failed on a full-length buffer");
+    };
+    assert!(pn.len() == len);
+    let got = pn.expand(expected);
+    let win: u64 = 1 << (8 * len);
+    let mut trunc: u64 = 0;
+    let mut i = 0;
+    while i < len {
+        trunc = (trunc << 8) | bytes[i] as u64;
+        i += 1;
+    }
+    assert!(got & (win - 1) == trunc);
+    // and lies within one window of the expectation
+    assert!(got <= expected + win / 2 || got < win);
+    assert!(got + win / 2 > expected || got + win > V62 + win / 2);
+    // a short buffer is an error (1,2,4-byte forms) - never a panic
+    if len != 3 && len > 1 {
+        let mut r = &bytes[..len - 1];
+        assert!(PacketNumber::decode(len, &mut r).is_err());
+    }
+    1 << (len - 1)
+}
+
+/// `SpaceId`/long-header type byte round-trip (first-byte packing).
+pub fn long_type_roundtrip(b: u8) -> u32 {
+    if b & LONG_HEADER_FORM == 0 {
+        return 0;
+    }
+    let Ok(ty) = LongHeaderType::from_byte(b) else { panic!("from_byte is total") };
+    let back = u8::from(ty);
+    assert!(back & 0x30 == b & 0x30);
+    assert!(back & LONG_HEADER_FORM != 0 && back & FIXED_BIT != 0);
+    assert!(back & 0x0f == 0);
+    assert!(matches!(LongHeaderType::from_byte(back), Ok(t) if t == ty));
+    match ty {
+        LongHeaderType::Initial => 1,
+        LongHeaderType::Retry => 2,
+        LongHeaderType::Standard(LongType::Handshake) => 4,
+        LongHeaderType::Standard(LongType::ZeroRtt) => 8,
+    }
+}
